@@ -105,6 +105,9 @@ def run_encrypt(ctx, tr, d, key: bytes, keyname, size, seed, kid, halg, via, k, 
     es, kms = scripts()
     fw = d / f"fw{k}.bin"
     pt = envgen.blob(size, seed)
+    if k % 4 == 1 and size:   # a firmware whose first and last byte are NUL / whitespace / 0xFF
+        e_ = (0x00, 0x09, 0x0A, 0x0D, 0x20, 0xFF)
+        pt = bytes([e_[(k // 4) % 6]]) + pt[1:-1] + (bytes([e_[(k // 24) % 6]]) if size > 1 else b"")
     fw.write_bytes(pt)
     out = out or d / f"out{k}"   # a given directory still holds the artifacts of the previous run
     out.mkdir(exist_ok=True)
